@@ -26,6 +26,13 @@
 (*                              AT LOAD TIME while replaying: a key whose first expiry has passed by the time  *)
 (*                              of the restart is dropped although a later expireAt/persist had extended it     *)
 (*                              (the 'X' record is then an orphan and is ignored): a live key is lost.          *)
+(*   Dev_SnapshotDropsExpired   (seeded-change class, the snapshot half of F-12b alone): load() materialises a  *)
+(*                              snapshot entry only if its expiry is later than the clock at load time; a key    *)
+(*                              compacted with a TTL and extended / made permanent AFTER the compaction ('X' in  *)
+(*                              the journal) is lost once the ORIGINAL deadline has passed by the restart.       *)
+(*   Dev_PrefixStopsAtNul       (seeded-change class): keysWithPrefix() - and removeWithPrefix() built on it -    *)
+(*                              compares C strings (strncmp): the comparison stops at an embedded NUL byte, keys  *)
+(*                              that agree with the prefix up to the NUL match, also keys SHORTER than the prefix.*)
 (*   Dev_CacheFillOutsideLock   (seeded-change class, not in the code): get() on a cache miss copies the value *)
 (*                              under _mutex, RELEASES it, and only then fills the cache.  The code today does   *)
 (*                              copy + fill under one _mutex hold, so Get(k) is ONE action; with the flag it is  *)
@@ -42,21 +49,28 @@
 (* Concurrency reading: every API call of the code holds _mutex for its whole body, so concurrent callers are    *)
 (* interleavings of these atomic actions (writers, readers, eviction worker); only a flag that splits a critical  *)
 (* section adds interleavings.                                                                                     *)
-(* Generator mode (Emit, background steps off): prints every maximal history as a driver case line.          *)
+(* Keys are byte strings: KU selects the key universe of KvAbs.tla (key ids -> bytes, six prefixes); "has prefix" *)
+(* is decided on the bytes.  RmpPfx = the prefix ids removeWithPrefix is called with.                             *)
+(* Generator mode (Emit, background steps off): prints every maximal history as a driver case line.  A reopen is *)
+(* printed as `open 1` when it is SENSITIVE: the persisted image at that moment (snapshot + journal + clock)      *)
+(* distinguishes the load orders - sweeping the snapshot before the replay, or dropping per record, would load a   *)
+(* different map than replay-then-sweep.  EmitSens = TRUE prints only histories with a sensitive reopen.           *)
 EXTENDS KvAbs, TLC
 
 CONSTANTS NK, NV, MaxTime, MaxTtl, MaxOps, CacheMax,
           OpKinds, WorkerOn,
           Dev_ExpiredKeyResurrected, Dev_ReplayDropsPerRecord,
           Dev_CacheFillOutsideLock, NReaders, Dev_EvictJournalOutsideLock,
-          Emit
+          Emit,
+          KU, RmpPfx, Dev_SnapshotDropsExpired, Dev_PrefixStopsAtNul, EmitSens
 
 Keys == 1..NK
 Vals == 1..NV
 NoExp == [exp |-> Inf, tid |-> 0]
 NoC == [val |-> 0, exp |-> 0]
 AbsentL == [val |-> 0, exp |-> Inf]
-PrefixKeys == IF NK >= 2 THEN <<1, 2>> ELSE <<1>>
+Pfxs == 1..NPfx
+ImplHasPrefix(k, p) == IF Dev_PrefixStopsAtNul THEN CStrPrefix(PfxStr(KU, p), KeyStr(KU, k)) ELSE HasPrefix(KU, k, p)
 MaxTid == MaxOps + 2 * NK + 2
 
 VARIABLES kv, expiry, cache, timers, queue, snap, dlog, now, up, m, nops, hist,
@@ -64,8 +78,8 @@ VARIABLES kv, expiry, cache, timers, queue, snap, dlog, now, up, m, nops, hist,
           pendD         \* Dev_EvictJournalOutsideLock: keys erased by the eviction worker whose 'D' record is not yet journalled
 vars == <<kv, expiry, cache, timers, queue, snap, dlog, now, up, m, nops, hist, pendFill, pendD>>
 
-O(op, k, v, d, t) == [op |-> op, k |-> k, v |-> v, d |-> d, t |-> t, ks |-> <<>>, vs |-> <<>>]
-OB(op, ks, vs, d) == [op |-> op, k |-> 0, v |-> 0, d |-> d, t |-> 0, ks |-> ks, vs |-> vs]
+O(op, k, v, d, t) == [op |-> op, k |-> k, v |-> v, d |-> d, t |-> t, ks |-> <<>>, vs |-> <<>>, u |-> KU]
+OB(op, ks, vs, d) == [op |-> op, k |-> 0, v |-> 0, d |-> d, t |-> 0, ks |-> ks, vs |-> vs, u |-> KU]
 R(op, k, v, e) == [op |-> op, k |-> k, v |-> v, e |-> e]
 
 DiskOn == "close" \in OpKinds             \* without restarts the log is not observable: not recorded (smaller state space)
@@ -178,16 +192,16 @@ Clear ==
     /\ Did(OB("clear", <<>>, <<>>, 0))
     /\ UNCHANGED <<queue, snap, now, up>>
 
-(* removeWithPrefix = keysWithPrefix (live keys only) + remove each *)
-RemovePrefix ==
+(* removeWithPrefix(p) = keysWithPrefix(p) (live keys whose bytes start with the prefix's bytes) + remove each *)
+RemovePrefix(p) ==
     /\ Can("rmp")
-    /\ LET victims == {k \in SeqRange(PrefixKeys) : kv[k] # 0 /\ ~Expired(k)} IN
+    /\ LET victims == {k \in Keys : ImplHasPrefix(k, p) /\ kv[k] # 0 /\ ~Expired(k)} IN
        /\ dlog' = LogApp(dlog, DelRecs(victims))
        /\ timers' = {t \in timers : ~(t.k \in victims /\ t.tid = expiry[t.k].tid)}
        /\ kv' = [k \in Keys |-> IF k \in victims THEN 0 ELSE kv[k]]
        /\ expiry' = [k \in Keys |-> IF k \in victims THEN NoExp ELSE expiry[k]]
        /\ cache' = [k \in Keys |-> IF k \in victims THEN NoC ELSE cache[k]]
-    /\ Did(OB("rmp", PrefixKeys, <<>>, 0))
+    /\ Did(O("rmp", p, 0, 0, 0))
     /\ UNCHANGED <<queue, snap, now, up>>
 
 (* ------------------------------------------------------------------ get(): the only read that changes state *)
@@ -297,7 +311,12 @@ RECURSIVE ReplayF(_, _, _), ReplayA(_, _)
 ReplayF(s, lg, T) == IF lg = <<>> THEN s ELSE ReplayF(ApplyAsFound(s, Head(lg), T), Tail(lg), T)
 ReplayA(s, lg) == IF lg = <<>> THEN s ELSE ReplayA(ApplyAll(s, Head(lg)), Tail(lg))
 Sweep(s, T) == [k \in Keys |-> IF s[k].val # 0 /\ s[k].exp <= T THEN AbsentL ELSE s[k]]   \* ... expired keys dropped at the end
-Loaded == IF Dev_ReplayDropsPerRecord THEN ReplayF(Sweep(snap, now), dlog, now) ELSE Sweep(ReplayA(snap, dlog), now)
+LoadGood == Sweep(ReplayA(snap, dlog), now)
+LoadPerRecord == ReplayF(Sweep(snap, now), dlog, now)
+LoadSnapSwept == Sweep(ReplayA(Sweep(snap, now), dlog), now)
+LoadJournalPerRecord == Sweep(ReplayF(snap, dlog, now), now)
+Loaded == IF Dev_ReplayDropsPerRecord THEN LoadPerRecord ELSE IF Dev_SnapshotDropsExpired THEN LoadSnapSwept ELSE LoadGood
+SensitiveImage == LoadSnapSwept # LoadGood \/ LoadJournalPerRecord # LoadGood
 
 RECURSIVE ArmAll(_, _)          \* postLoadArm: a fresh wheel, one timer per surviving TTL key
 ArmAll(ks, n) == IF ks = {} THEN {} ELSE LET k == CHOOSE x \in ks : TRUE IN {[tid |-> n, k |-> k]} \cup ArmAll(ks \ {k}, n + 1)
@@ -310,7 +329,7 @@ Reopen ==
                                     THEN [exp |-> s[k].exp, tid |-> (CHOOSE t \in armed : t.k = k).tid] ELSE NoExp]
        /\ timers' = armed
     /\ up' = TRUE /\ queue' = <<>>
-    /\ hist' = (IF Emit THEN Append(hist, O("open", 0, 0, 0, 0)) ELSE hist)
+    /\ hist' = (IF Emit THEN Append(hist, O("open", 0, 0, IF SensitiveImage THEN 1 ELSE 0, 0)) ELSE hist)
     /\ UNCHANGED <<cache, snap, dlog, now, m, nops, pendFill, pendD>>
 
 Next == \/ \E k \in Keys, v \in Vals : Set(k, v)
@@ -319,7 +338,8 @@ Next == \/ \E k \in Keys, v \in Vals : Set(k, v)
         \/ \E k \in Keys, v \in Vals, e \in (0..(MaxTime + MaxTtl + 1)) \cup {Inf} : GetFill([k |-> k, val |-> v, exp |-> e])
         \/ \E k \in Keys, t \in 0..(MaxTime + 1) : ExpireAt(k, t)
         \/ \E a \in Vals, d \in {0, 1} : SetBatch(<<a, NV>>, d)
-        \/ Clear \/ RemovePrefix \/ Compact \/ Close \/ Reopen
+        \/ \E p \in RmpPfx : RemovePrefix(p)
+        \/ Clear \/ Compact \/ Close \/ Reopen
         \/ \E d \in 1..MaxTime : TimePasses(d)
         \/ \E k \in Keys, i \in 1..MaxTid : Fire([tid |-> i, k |-> k])
         \/ WorkerStale \/ WorkerReArm \/ WorkerEvict \/ WorkerEvictErase
@@ -327,7 +347,8 @@ Next == \/ \E k \in Keys, v \in Vals : Set(k, v)
 Spec == Init /\ [][Next]_vars
 
 (* ------------------------------------------------------------------ refinement: every read path, every state *)
-SlowGet(k) == IF kv[k] # 0 /\ ~Expired(k) THEN kv[k] ELSE 0          \* get slow path, exists, getBatch, keys, prefix scan
+SlowGet(k) == IF kv[k] # 0 /\ ~Expired(k) THEN kv[k] ELSE 0          \* get slow path, exists, getBatch, keys
+ImplPfx(p) == {k \in Keys : ImplHasPrefix(k, p) /\ SlowGet(k) # 0}   \* keysWithPrefix: byte comparison + the same backstop
 FastGet(k) == IF cache[k].val # 0 /\ cache[k].exp > now THEN cache[k].val ELSE SlowGet(k)
 ImplSize == Cardinality({k \in Keys : kv[k] # 0}) - Cardinality({k \in Keys : HasExp(k) /\ expiry[k].exp <= now})
 ImplTtl(k) == IF kv[k] # 0 /\ HasExp(k) /\ ~Expired(k) THEN expiry[k].exp - now ELSE -1
@@ -336,6 +357,9 @@ Inv_Reads == up => /\ \A k \in Keys : /\ FastGet(k) = AbsGet(m, k, now, FALSE)
                                       /\ SlowGet(k) = AbsGet(m, k, now, FALSE)
                                       /\ ImplTtl(k) = AbsTtl(m, k, now, FALSE)
                    /\ ImplSize = Cardinality(AbsKeys(m, now, FALSE))
+(* the prefix scan, for every prefix of the key universe (a separate invariant: checked in the byte-string-key      *)
+(* configurations; elsewhere prefix membership is a fixed table and the scan is SlowGet restricted to it)            *)
+Inv_Prefix == up => \A p \in Pfxs : ImplPfx(p) = AbsPfx(m, KU, p, now, FALSE)
 Inv_Struct == /\ \A k \in Keys : HasExp(k) => kv[k] # 0                 \* _expiry only for keys of _kv
               /\ Cardinality(CachedKeys(cache)) <= CacheMax
               /\ \A t \in timers : t.tid \in 1..MaxTid
@@ -351,9 +375,11 @@ OpStr(o) ==
       [] o.op = "get"    -> "get " \o N(o.k)
       [] o.op = "batch"  -> "batch " \o N(o.d) \o " 1:" \o N(o.vs[1]) \o ",2:" \o N(o.vs[2])
       [] o.op = "tick"   -> "tick " \o N(o.d)
-      [] o.op = "rmp"    -> "rmp 1"
+      [] o.op = "rmp"    -> "rmp " \o N(o.k)
+      [] o.op = "open"   -> IF o.d = 1 THEN "open 1" ELSE "open"
       [] OTHER           -> o.op             \* clear, compact, close, open
 RECURSIVE JoinOps(_)
 JoinOps(s) == IF s = <<>> THEN "" ELSE OpStr(Head(s)) \o (IF Len(s) > 1 THEN ";" ELSE "") \o JoinOps(Tail(s))
-EmitInv == (Emit /\ up /\ nops = MaxOps) => PrintT("HIST " \o JoinOps(hist))
+HasSens == \E i \in 1..Len(hist) : hist[i].op = "open" /\ hist[i].d = 1
+EmitInv == (Emit /\ up /\ nops = MaxOps /\ (EmitSens => HasSens)) => PrintT("HIST " \o JoinOps(hist))
 =============================================================================
